@@ -15,7 +15,7 @@ func lit(s string) string {
 	return "^" + strings.ReplaceAll(regexp.QuoteMeta(s), "§", ".*") + "$"
 }
 
-const bmpExpr = "bitmap.FromBytes(Votes.GetVoters(IVoteMsg.GetVote($2)))"
+const bmpExpr = "bitmap.FromBytes(IVoteMsg.GetVote($2).Voters)"
 
 // votedHandlers: tx handlers whose request type implements relayer/types.IVoteMsg.
 func (p *Prog) votedHandlers() (voted, nonVoted []*ssa.Function) {
@@ -87,6 +87,13 @@ func (p *Prog) writeSites(fn *ssa.Function) []ssa.Instruction {
 	return out
 }
 
+var thresholdForms = map[string]bool{
+	"int(math.Ceil(((2 * float((1 + len($0.Voters)))) / 3)))": true,
+	"((2 + (2 * (1 + len($0.Voters)))) / 3)":                  true, // (2m+2)/3
+	"((((1 + len($0.Voters)) * 2) + 2) / 3)":                  true, // (2m+2)/3 as rendered (operands sorted)
+	"((4 + (2 * len($0.Voters))) / 3)":                        true, // (2n+4)/3
+}
+
 const verifyProposalOK = `^\(RelayerKeeper\.VerifyProposal\(\$2[,)].*#1 == nil\)$`
 
 func init() {
@@ -137,11 +144,11 @@ func propC01(c *Check) {
 
 	vp := p.MustFn("x/relayer/keeper.Keeper.VerifyProposal")
 	c.RequireFact(vp, "R2", "proposer", lit("(IVoteMsg.GetProposer($2) == Relayer.Get()#0.Proposer)"), nil, "")
-	c.RequireFact(vp, "R2", "sequence", lit("(Sequence.Peek()#0 == Votes.GetSequence(IVoteMsg.GetVote($2)))"), nil, "")
-	c.RequireFact(vp, "R2", "epoch", lit("(Relayer.Get()#0.Epoch == Votes.GetEpoch(IVoteMsg.GetVote($2)))"), nil, "")
+	c.RequireFact(vp, "R2", "sequence", lit(EQ("Sequence.Peek()#0", "IVoteMsg.GetVote($2).Sequence")), nil, "")
+	c.RequireFact(vp, "R2", "epoch", lit(EQ("Relayer.Get()#0.Epoch", "IVoteMsg.GetVote($2).Epoch")), nil, "")
 	// threshold: Threshold <= 1 + marks, where marks is Bitmap.Count(bmp) or len(keys)-style count
 	c.RequireFact(vp, "R2", "threshold", `^\(Relayer\.Threshold\(Relayer\.Get\(\)#0\) <= (\(1 \+ Bitmap\.Count\(`+regexp.QuoteMeta(bmpExpr)+`\)\)|len\(φ\{append.*\}\))\)$`, nil, "")
-	c.RequireFact(vp, "R2", "marks<=voters", `^\((Bitmap\.Count\(`+regexp.QuoteMeta(bmpExpr)+`\)|\(-1 \+ len\(φ\{append.*\}\)\)) <= len\(Relayer\.GetVoters\(Relayer\.Get\(\)#0\)\)\)$`, nil, "")
+	c.RequireFact(vp, "R2", "marks<=voters", `^\((Bitmap\.Count\(`+regexp.QuoteMeta(bmpExpr)+`\)|\(-1 \+ len\(φ\{append.*\}\)\)) <= len\(Relayer\.Get\(\)#0\.Voters\)\)$`, nil, "")
 	c.RequireFact(vp, "R2", "aggregate-verify", `^crypto\.AggregateVerify\(`, nil, "")
 	// Threshold arithmetic shape
 	th := p.MustFn("x/relayer/types.Relayer.Threshold")
@@ -149,7 +156,9 @@ func propC01(c *Check) {
 	thOK := false
 	for _, e := range Exits(th) {
 		s := p.R(th).E(e.Ret.Results[0])
-		if s == "int(math.Ceil(((2 * float((1 + len($0.Voters)))) / 3)))" {
+		// ceil(2m/3) for m = n+1 members, in floating point or in one of the exact integer forms
+		// (2m+2)/3 (m is small: no overflow, and float64 is exact far beyond any group size)
+		if thresholdForms[s] {
 			thOK = true
 		} else {
 			thOK = false
@@ -170,7 +179,7 @@ func propC01(c *Check) {
 	args := av.Common().Args
 	r := p.R(vp)
 	keys := r.E(args[0])
-	wantKeys := `^φ\{append\(@, \[Voters\.Get\(Relayer\.GetVoters\(Relayer\.Get\(\)#0\)\[φ\{\(1 \+ @\)\|0\}\]\)#0\.VoteKey\]\)\|append\(make\(\[\]\[\]byte,0,.*\), \[Voters\.Get\(Relayer\.Get\(\)#0\.Proposer\)#0\.VoteKey\]\)\}$`
+	wantKeys := `^φ\{append\(@, \[Voters\.Get\(Relayer\.Get\(\)#0\.Voters\[φ\{\(1 \+ @\)\|0\}\]\)#0\.VoteKey\]\)\|append\(make\(\[\]\[\]byte,0,.*\), \[Voters\.Get\(Relayer\.Get\(\)#0\.Proposer\)#0\.VoteKey\]\)\}$`
 	if regexp.MustCompile(wantKeys).MatchString(keys) {
 		c.Held("R3", "key-slice @ "+FuncKey(vp), p.InstrPos(av), "keys = [proposer.VoteKey] ++ [voters[i].VoteKey | marked i]")
 		c.Held("R5", "key-source @ "+FuncKey(vp), p.InstrPos(av), "every key is Voters.Get(<current relayer member>).VoteKey from the keeper's own store")
@@ -180,7 +189,7 @@ func propC01(c *Check) {
 	}
 	// appended only under bitmap.Contains(i)
 	var voterAppends []ssa.Instruction
-	for _, ci := range p.FindCalls(vp, `^append\(.*Relayer\.GetVoters\(`) {
+	for _, ci := range p.FindCalls(vp, `^append\(.*Relayer\.Get\(\)#0\.Voters\[`) {
 		voterAppends = append(voterAppends, ci)
 	}
 	if len(voterAppends) == 0 {
@@ -204,7 +213,7 @@ func propC01(c *Check) {
 	}
 	// (ii) highest mark bounded by len(voters)
 	if !tied {
-		reMax := regexp.MustCompile(`^\((Bitmap\.Max\(.*\)#0 < len\(Relayer\.GetVoters\(.*\)\)|Bitmap\.Count\(.*\) == Bitmap\.CountTo\(.*, len\(Relayer\.GetVoters\(.*\)\)\))\)$`)
+		reMax := regexp.MustCompile(`^\((Bitmap\.Max\(.*\)#0 < len\(Relayer\.Get\(\)#0\.Voters\)|Bitmap\.Count\(.*\) == Bitmap\.CountTo\(.*, len\(Relayer\.Get\(\)#0\.Voters\)\))\)$`)
 		if edges := p.MatchEdges(vp, reMax); len(edges) > 0 {
 			avoid := map[edgeKey]bool{}
 			for _, e := range edges {
@@ -236,7 +245,7 @@ func propC01(c *Check) {
 	} else {
 		c.Violated("R4", "signdoc-args @ "+FuncKey(vp), p.InstrPos(av), "verified message is "+doc+" reason=not-established")
 	}
-	if s := r.E(args[2]); s == "Votes.GetSignature(IVoteMsg.GetVote($2))" {
+	if s := r.E(args[2]); s == "IVoteMsg.GetVote($2).Signature" {
 		c.Held("R4", "signature-arg @ "+FuncKey(vp), p.InstrPos(av), s)
 	} else {
 		c.Violated("R4", "signature-arg @ "+FuncKey(vp), p.InstrPos(av), "signature verified is "+s+" reason=not-established")
@@ -396,10 +405,10 @@ func propC02(c *Check) {
 
 	// R3 ProposerAccepted stores
 	allowedPA := map[string]bool{
-		"x/relayer/keeper.Keeper.VerifyProposal":      true,
-		"x/relayer/keeper.Keeper.VerifyNonProposal":   true,
-		"x/relayer/keeper.msgServer.AcceptProposer":   true,
-		"x/relayer/keeper.Keeper.EndBlocker":          true,
+		"x/relayer/keeper.Keeper.VerifyProposal":    true,
+		"x/relayer/keeper.Keeper.VerifyNonProposal": true,
+		"x/relayer/keeper.msgServer.AcceptProposer": true,
+		"x/relayer/keeper.Keeper.EndBlocker":        true,
 	}
 	relT := p.LookupType("x/relayer/types", "Relayer")
 	c.checkFieldWriters("R3", relT, "ProposerAccepted", "ProposerAccepted", allowedPA, 4)
@@ -410,8 +419,8 @@ func propC02(c *Check) {
 	} else {
 		tgt := instrSet(vpSets)
 		c.RequireFact(vp, "R3", "write-after-proposer", lit("(IVoteMsg.GetProposer($2) == Relayer.Get()#0.Proposer)"), tgt, "state write")
-		c.RequireFact(vp, "R3", "write-after-sequence", lit("(Sequence.Peek()#0 == Votes.GetSequence(IVoteMsg.GetVote($2)))"), tgt, "state write")
-		c.RequireFact(vp, "R3", "write-after-epoch", lit("(Relayer.Get()#0.Epoch == Votes.GetEpoch(IVoteMsg.GetVote($2)))"), tgt, "state write")
+		c.RequireFact(vp, "R3", "write-after-sequence", lit(EQ("Sequence.Peek()#0", "IVoteMsg.GetVote($2).Sequence")), tgt, "state write")
+		c.RequireFact(vp, "R3", "write-after-epoch", lit(EQ("Relayer.Get()#0.Epoch", "IVoteMsg.GetVote($2).Epoch")), tgt, "state write")
 		c.RequireFact(vp, "R3", "write-after-signature", `^crypto\.AggregateVerify\(`, tgt, "state write")
 	}
 	vnp := p.MustFn("x/relayer/keeper.Keeper.VerifyNonProposal")
